@@ -81,6 +81,40 @@ def handle : Handler := fun op inp impl =>
       else ""
     { agree := agree, holds := why.isEmpty, nontrivial := nontrivial, model := model, why := why,
       cls := if wantOk then "success" else "failure" }
+  | "run" =>
+    if !(isNull (field impl "panic")) then
+      { agree := false, holds := false, why := "panic: " ++ str (field impl "panic") } else
+    let client := str (field inp "client")
+    let codes := strList (field inp "cases")
+    let mk (i : Nat) (code : String) : Option Case :=
+      match code.toList with
+      | [x, m] => do
+        let m ← parseMark m
+        let k ← (match client, x with
+          | "reference", 'r' => some Kind.pass
+          | "reference", 'w' => some Kind.assertFail
+          | "exit0", _ => some Kind.couldNotRun   -- the client was gone: no case ran
+          | "exit1", _ => some Kind.couldNotRun
+          | _, _ => none)
+        pure { name := "c" ++ toString i, kind := k, mark := m, feedback := false }
+      | _ => none
+    match (codes.zipIdx.map (fun (c, i) => mk i c)).mapM id with
+    | none => bad "malformed run input"
+    | some cases =>
+    let iOk := bool (field impl "ok")
+    let iFailed := (strList (field impl "failedNames")).map (fun n => (n.splitOn "/").getLast?.getD n)
+    let want := specOk cases 0
+    let mOk := runVerdict (report (marksOf cases) cases.length (finalMap cases) []) false
+    -- with a client that really ran, every failing case must be named; when the client was gone the
+    -- cases are setup errors or could-not-run, whichever the race produced: only the verdict is fixed
+    let unnamed := if client == "reference" then (specFailedNames cases).filter (fun n => !iFailed.contains n) else []
+    let why :=
+      if iOk != want then "verdict: Run returned " ++ toString iOk ++ " with client " ++ client ++ " but " ++
+        (if want then "every selected case ran and met its expectation" else "not every selected case ran and met its expectation")
+      else if !unnamed.isEmpty then "unnamed: failing cases not named on a FAILED line: " ++ toString unnamed
+      else ""
+    { agree := iOk == mOk, holds := why.isEmpty, nontrivial := true, model := Json.mkObj [("ok", mOk)], why := why,
+      cls := client ++ (if want then ":success" else ":failure") }
   | _ => bad ("C04: unknown op " ++ op)
 
 end ConfModel.Driver.C04
